@@ -232,7 +232,22 @@ def op_programs():
         ax = me % 2
         return grad(lambda z: np.sum(np.fft.irfft(np.fft.rfft(z, axis=ax) * (1.0 + 0.5j), axis=ax) * m))(m)[0]
 
-    progs = {"fine_einsum_a": fine_einsum_a, "fine_einsum_b": fine_einsum_b, "fine_fft": fine_fft, "hvp_sort": hvp_sort, "grad_sort": grad_sort, "hvp_index": hvp_index, "nested_mixed": nested_mixed, "vjp_reuse": vjp_reuse,
+    # forward mode: each thread's OUTERMOST differentiation is a make_jvp (its root node carries the tangent), and one
+    # JVP function object shared by the threads and called with different tangents
+    XS = onp.array([0.3, -1.1, 0.8, 1.7])
+    fjv = lambda z: np.sin(z) * z + z * z * 3.0 + np.cos(z * z) * z
+    JS = make_jvp(fjv)(XS)
+
+    def fine_jvp_own(me, x, v):
+        return make_jvp(fjv)(x)(v)[1]
+
+    def fine_jvp_sharedfn(me, x, v):
+        return JS(v)[1]
+
+    def fine_fwd_over_rev(me, x, v):
+        return make_jvp(grad(lambda z: np.sum(fjv(z))))(x)(v)[1]
+
+    progs = {"fine_jvp_own": fine_jvp_own, "fine_jvp_sharedfn": fine_jvp_sharedfn, "fine_fwd_over_rev": fine_fwd_over_rev, "fine_einsum_a": fine_einsum_a, "fine_einsum_b": fine_einsum_b, "fine_fft": fine_fft, "hvp_sort": hvp_sort, "grad_sort": grad_sort, "hvp_index": hvp_index, "nested_mixed": nested_mixed, "vjp_reuse": vjp_reuse,
              "shared_grad": shared_grad, "shared_hvp": shared_hvp, "shared_jvp": shared_jvp, "shared_grad_argnum": shared_grad_argnum}
     return box, progs
 
